@@ -374,6 +374,7 @@ func runC04(res *Result, tier string, seed int64, replay string) {
 		runC04Mixed(res, drv, tier, seed)
 		runC04TextFlow(res, drv, tier, seed)
 		runC04TextVoid(res, drv, tier, seed)
+		runC04Deliver(res, drv, tier, seed)
 		runC04StringAttrs(res)
 	}
 	// (2) layout documents
